@@ -27,7 +27,7 @@ VARIABLES owner,    \* "pool" | "reader" | "switch" | "router" | "handler" | "li
           act
 vars == <<owner, releases, result, cls, act>>
 
-Stages == {"parse", "link-pre", "link-mid", "link-post", "sealed", "kx", "sched", "flood"}
+Stages == {"parse", "link-pre", "link-mid", "link-post", "sealed", "kx", "sched", "flood", "churn"}
 Kinds == [ parse |-> {"random", "truncated", "bit", "lengths", "tiers"},
            linkpre |-> {"len0to3", "len4to11", "len12to27", "lenbeyond", "lenmax", "garbage", "mutated"},
            linkmid |-> {"mutated2", "mutated3", "lengths", "garbage", "signed-fields", "paused-handshake"},
@@ -41,9 +41,15 @@ Kinds == [ parse |-> {"random", "truncated", "bit", "lengths", "tiers"},
            \* tens of thousands of well-formed frames of ONE authenticated peer that differ in a field the router keeps
            \* state for (per source address, per identity, per connection): the tables behind the handlers grow past
            \* any size an ordinary run reaches, the cleaners have their tick, the tables grow again
-           flood |-> {"loop-sources", "identity-sources", "traffic-ports"} ]
+           flood |-> {"loop-sources", "identity-sources", "traffic-ports"},
+           \* frames that are switched and routed WHILE the link registry of the router changes: a running router
+           \* registers links (a peer's handshake completes) and removes them (a peer disconnects or misbehaves) at
+           \* the moment its workers look up routes and links for frames; both are driven by the network.  The
+           \* first six are frames by what has to be looked up for them, the last three the registry's own inputs
+           churn |-> {"transit-peer", "transit-learned", "transit-unknown", "switch-label", "ping-relayed", "ping-peer",
+                      "link-up", "link-down", "link-handshake"} ]
 KindsOf(s) == CASE s = "parse" -> Kinds.parse [] s = "link-pre" -> Kinds.linkpre [] s = "link-mid" -> Kinds.linkmid
-                [] s = "link-post" -> Kinds.linkpost [] s = "sealed" -> Kinds.sealed [] s = "sched" -> Kinds.sched [] s = "flood" -> Kinds.flood [] OTHER -> Kinds.kx
+                [] s = "link-post" -> Kinds.linkpost [] s = "sealed" -> Kinds.sealed [] s = "sched" -> Kinds.sched [] s = "flood" -> Kinds.flood [] s = "churn" -> Kinds.churn [] OTHER -> Kinds.kx
 
 Init ==
   /\ owner = "pool" /\ releases = 0 /\ result = "none"
@@ -64,7 +70,7 @@ ReaderDrops ==
   /\ act' = [name |-> "readerdrops"]
   /\ UNCHANGED cls
 ReaderPasses ==
-  /\ owner = "reader" /\ cls.stage \in {"sealed", "link-post", "parse", "flood"}
+  /\ owner = "reader" /\ cls.stage \in {"sealed", "link-post", "parse", "flood", "churn"}
   /\ owner' = "switch"
   /\ act' = [name |-> "readerpasses"]
   /\ UNCHANGED <<releases, result, cls>>
